@@ -15,8 +15,8 @@ using hx::Pair;
 namespace lg = gmlc::libguarded;
 
 namespace {
-enum OpK : uint8_t { DETACH, ASYNC_VAL, ASYNC_VOID, ASYNC_THROW, RD0, RD1, RD2, LOADK, NOPK };
-const char* opn[] = {"modify_detach", "modify_async(value)", "modify_async(void)", "modify_async(throws)",
+enum OpK : uint8_t { DETACH, ASYNC_VAL, ASYNC_VOID, ASYNC_THROW, DETACH_THROW, RD0, RD1, RD2, LOADK, NOPK };
+const char* opn[] = {"modify_detach", "modify_async(value)", "modify_async(void)", "modify_async(throws)", "modify_detach(throws)",
                      "shared handle", "shared handle held over next op", "shared handle held over next 2 ops", "load"};
 const char* formn[] = {"lock_shared", "try_lock_shared", "try_lock_shared_for", "try_lock_shared_until"};
 struct OpI {
@@ -91,9 +91,9 @@ void body_t(const Prog& p)
             // assign ids to the submissions of this thread
             std::vector<int> myids;
             for (auto& o : ops) {
-                if (o.k <= ASYNC_THROW) {
+                if (o.k <= DETACH_THROW) {
                     myids.push_back(next_id++);
-                    if (o.k != ASYNC_THROW) bumps_expected++;
+                    if (o.k != ASYNC_THROW && o.k != DETACH_THROW) bumps_expected++;
                 } else {
                     myids.push_back(0);
                 }
@@ -113,11 +113,26 @@ void body_t(const Prog& p)
                         point();
                         ++x.b;
                     };
-                    if (o.k <= ASYNC_THROW) {
+                    if (o.k <= DETACH_THROW) {
                         int si = g_nsub++;
                         g_sub[si] = Sub{id, self(), o.k, stamp(), ~uint64_t(0)};
                         if (o.k == DETACH) {
                             dg->modify_detach(bump);
+                        } else if (o.k == DETACH_THROW) {
+                            // a detached functor that throws: on the direct path the exception reaches the submitter, on
+                            // the queued path it is swallowed with the task; either way it runs once and nothing behind
+                            // it is lost
+                            try {
+                                dg->modify_detach([id](Pair& x) {
+                                    record_exec(id);
+                                    hx::WriteWin w(&x, "deferred modification functor (throwing)");
+                                    point();
+                                    throw TestErr();
+                                });
+                            }
+                            catch (const TestErr&) {
+                                observe(88);
+                            }
                         } else if (o.k == ASYNC_VAL) {
                             sh->fval[id] = dg->modify_async([bump, id](Pair& x) {
                                 bump(x);
@@ -286,13 +301,13 @@ void make_items(const Options& o, std::vector<Item>& items)
             std::vector<OpI> ops;
             for (size_t i = 0; i < t.size(); i++) {
                 int k = t[i];
-                if (k <= ASYNC_THROW) subs++;
+                if (k <= DETACH_THROW) subs++;
                 // a held handle needs following ops to make sense
                 if ((k == RD1 && i + 1 >= t.size()) || (k == RD2 && i + 2 > t.size())) return;
                 // a thread must not submit while itself holding a plain (non-shared) mutex: try_lock by the owner is UB
                 if ((mt >= 2) && (k == RD1 || k == RD2)) {
                     for (size_t j = i + 1; j < t.size() && j <= i + (k - RD0); j++)
-                        if (t[j] <= ASYNC_THROW || t[j] == LOADK || (t[j] >= RD0 && t[j] <= RD2)) return;
+                        if (t[j] <= DETACH_THROW || t[j] == LOADK || (t[j] >= RD0 && t[j] <= RD2)) return;
                 }
                 // re-acquiring shared access while holding it can self-deadlock with a waiting writer on real
                 // rwlocks: not generated
